@@ -1,4 +1,5 @@
 import Casket.Proofs.FileServe
+import Casket.Proofs.Cond
 import Casket.Generated.FileServe
 /-
 C02 — Served file content stays inside the root and never includes hidden files; redirects
@@ -116,6 +117,17 @@ theorem C02_model_verdict_ok (fs : FS) (site : Site) (method target ae : Bytes)
     verdict fs site target ae (serve fs site method target ae) = "ok" :=
   serve_verdict_ok fs site method target ae hroot hp hrd
 
+/-- Conditional and range requests (If-None-Match, If-Modified-Since, Range; If-Match,
+If-Unmodified-Since, If-Range and multi-range as "explored"): whatever `http.ServeContent` answers
+— 304, 206, 416, 412 or 200 — the files its headers and partial body identify (ETag,
+Content-Length, Content-Range and body: the served file; Last-Modified: the resolved file) are
+files the request may see: named file, index page or accepted sibling; regular, inside the root,
+not hidden.  Same hypotheses as `C02_model_verdict_ok`. -/
+theorem C02_cond_model_verdict_ok (fs : FS) (site : Site) (method target ae : Bytes) (c : Casket.Cond.Cond)
+    (hroot : NormalSegs site.root) (hp : NormalPrefix site.pathPrefix) (hrd : RootIsDir fs site) :
+    Casket.CondSpec.verdict fs site target ae (Casket.Cond.serveCond fs site method target ae c) = "ok" :=
+  Casket.CondProofs.serveCond_verdict_ok fs site method target ae c hroot hp hrd
+
 /-- The encodings and index pages the model uses by default are the lists in fileserver.go
 (regenerated on every run): three encodings whose extensions start with a dot, six index names
 without a slash. -/
@@ -154,5 +166,14 @@ example : serve exFS exSite mGET (b! "/") [] = .listing [b! "a", b! "a.gz", b! "
 example : serve exFS exSite mGET (b! "/?archive=tar") [] =
     .archive [⟨[b! "a"], some 2⟩, ⟨[b! "a.gz"], some 3⟩, ⟨[b! "d"], none⟩, ⟨[b! "d", b! "c"], some 5⟩] := by decide
 example : serve exFS exSite mGET (b! "//d") [] = .redirect 301 (b! "/d/") := by decide
+
+/-- (tests) a matching entity tag gives 304 naming the sibling; Last-Modified names the plain file;
+a range beyond the end gives 416 naming only the served file. -/
+example : Casket.Cond.serveCond exFS exSite mGET (b! "/a") (b! "gzip")
+    { inm := [.strong 3], ims := none, range := none, explored := false } = .notModified 3 := by decide
+example : Casket.Cond.serveCond exFS exSite mGET (b! "/a") (b! "gzip")
+    { inm := [], ims := none, range := some (.fromTo 0 3), explored := false } = .part 3 (some (b! "gzip")) 2 0 3 := by decide
+example : Casket.Cond.serveCond exFS exSite mGET (b! "/a") []
+    { inm := [.strong 3], ims := some (some 199), range := some (.fromOn 99), explored := false } = .unsatisfiable (some 2) := by decide
 
 end Casket.Props.C02
